@@ -33,9 +33,9 @@ import (
 func cases(tier string, seed int64) []eng.Case {
 	r := eng.NewRand("c13-cases", seed)
 	var out []eng.Case
-	nBGV := 60
+	nBGV := 110
 	if tier == "thorough" {
-		nBGV = 300
+		nBGV = 1000
 	}
 	for i := 0; i < nBGV; i++ {
 		cfg, ok := drawBGV(r.Sub("bgv", i), i, tier)
@@ -46,9 +46,9 @@ func cases(tier string, seed int64) []eng.Case {
 		out = append(out, eng.Case{ID: fmt.Sprintf("bgv/%03d/logN%d/t%d/L%d/qb%d", i, cc.LogN, cc.T, len(cc.Q)-1, cc.QBits), Sig: "C13|bgv/polynomial.Evaluator", Desc: cc,
 			Run: func(c *eng.Ctx) { runBGV(c, cc) }})
 	}
-	nCKKS := 70
+	nCKKS := 130
 	if tier == "thorough" {
-		nCKKS = 350
+		nCKKS = 1100
 	}
 	for i := 0; i < nCKKS; i++ {
 		cfg, ok := drawCKKS(r.Sub("ckks", i), i, tier)
@@ -59,9 +59,9 @@ func cases(tier string, seed int64) []eng.Case {
 		out = append(out, eng.Case{ID: fmt.Sprintf("ckks/%03d/%s/logN%d/ls%d/L%d/d%d", i, cc.Ring, cc.LogN, cc.LogScale, len(cc.Q)-1, cc.Depth), Sig: "C13|ckks/polynomial.Evaluator", Desc: cc,
 			Run: func(c *eng.Ctx) { runCKKS(c, cc) }})
 	}
-	nComp := 24
+	nComp := 36
 	if tier == "thorough" {
-		nComp = 120
+		nComp = 288
 	}
 	for i := 0; i < nComp; i++ {
 		cc := drawComposite(r.Sub("comp", i), i, tier)
@@ -70,7 +70,7 @@ func cases(tier string, seed int64) []eng.Case {
 	}
 	nPlain, perPlain := 8, 60
 	if tier == "thorough" {
-		nPlain, perPlain = 32, 120
+		nPlain, perPlain = 64, 150
 	}
 	for i := 0; i < nPlain; i++ {
 		ii := i
@@ -89,7 +89,7 @@ func init() {
 			"reference arithmetic (math/big, 128-bit modular products of verif/harness/ref) is correct",
 			"decryption, decoding and secret-key encryption of the scheme packages are correct (judged by C03/C07); they are only used to observe the result",
 			"CKKS bound: first-order worst-case propagation (canonical-embedding norm N*|.|_inf, ternary secret of weight <= h, Gaussian bound B) with the stated slack factors; measured errors stay >= 9 bits below it (max_ckks_err_over_bound_permille)",
-			"composite circuits are judged on the domain and with the tolerance their doc comments state (sign/step: |x| >= 2^-29, 2^-20; max/min: 2^-19; inverse: relative 2^-20; mod1: the three in-tree parameterisations, 2^-12 against the documented scaled sine)",
+			"composite circuits are judged on the domain and with the tolerance their doc comments state (sign/step: |x| >= 2^-29, 2^-20; max/min: 2^-19; inverse: relative 2^-20; mod1: the three in-tree parameterisations, 2^-20 against the documented scaled sine)",
 			"bignum.NewPolynomial built from float64 coefficients carries 53-bit coefficients: with two primes per rescaling the workload passes 256-bit coefficients and intervals",
 		},
 	})
